@@ -19,6 +19,7 @@ NEG = [  # negative controls: the model expresses each repaired defect and the p
     ("BatchSchedule_neg_round.cfg", "HistoricalEqualsLive"),
     ("BatchSchedule_neg_gb.cfg", "HistoricalEqualsLive"),
     ("BatchSchedule_neg_flux.cfg", "OnlyDeclaredDBRPs"),   # DBRP collection stopping at the first Flux child (a seeded defect, not found in the code)
+    ("BatchSchedule_neg_defrp.cfg", "OnlyDeclaredDBRPs"),  # checkDBRPs filling an empty rp with default-retention-policy before the lookup (seeded defect)
 ]
 
 
